@@ -2751,3 +2751,172 @@ Proof.
   - exact Hu0.
   - rewrite Eu. cbn [bind]. fold st0. rewrite G3. reflexivity.
 Qed.
+
+(* ============================================================================================== *)
+(* 5. Control words                                                                                 *)
+
+Lemma size_bound m k : 1 <= m -> m < 2 ^ k -> N.size m <= k /\ 1 <= N.size m.
+Proof.
+  intros H1 H2. rewrite N.size_log2 by lia. split; [|lia].
+  assert (N.log2 m < k) by (apply N.log2_lt_pow2; lia). lia.
+Qed.
+
+Lemma le_size x m : x <= m -> x < 2 ^ N.size m.
+Proof. intros H. pose proof (N.size_gt m). lia. Qed.
+
+Lemma land_mask x w : x < 2 ^ w -> N.land x (2 ^ w - 1) = x.
+Proof.
+  intros H. replace (2 ^ w - 1) with (N.ones w) by (rewrite N.ones_equiv, N.sub_1_r; reflexivity).
+  rewrite N.land_ones. apply N.mod_small. exact H.
+Qed.
+
+Lemma from_le_bytes n x : x < 256 ^ N.of_nat n -> from_le (le_bytes n x) = x.
+Proof.
+  revert x. induction n as [|n IH]; intros x H.
+  - cbn in *. lia.
+  - cbn [le_bytes from_le]. rewrite IH.
+    + pose proof (N.div_mod x 256). lia.
+    + replace (N.of_nat (S n)) with (N.succ (N.of_nat n)) in H by lia. rewrite N.pow_succ_r' in H.
+      apply N.div_lt_upper_bound; lia.
+Qed.
+Lemma le_bytes_length n x : length (le_bytes n x) = n.
+Proof. revert x; induction n; intros; cbn; [reflexivity|]. rewrite IHn. reflexivity. Qed.
+
+Definition nb_ok (nb : N) : Prop := nb = 1 \/ nb = 2 \/ nb = 4.
+
+Lemma pow_bits nb : nb_ok nb -> 2 ^ (8 * nb) = 256 ^ N.of_nat (N.to_nat nb).
+Proof. intros [->|[->| ->]]; reflexivity. Qed.
+
+Section Binary.
+  Variables (nb rw dw mr mv : N).
+  Hypothesis Hnb : nb_ok nb.
+  Hypothesis Hfit : rw + dw <= 8 * nb.
+  Hypothesis Hrw : 1 <= rw.
+  Hypothesis Hrw16 : rw <= 16.
+  Hypothesis Hdw16 : dw <= 15.
+
+  Let it := {| cw_kind_ := CWBinary; cw_bytes := nb; cw_rep_mask := 2 ^ rw - 1; cw_def_mask := 2 ^ dw - 1;
+               cw_def_width := dw; cw_max_rep := mr; cw_max_vis := mv; cw_bits_rep := rw; cw_bits_def := dw |}.
+
+  Lemma word_lt r d : r < 2 ^ rw -> d < 2 ^ dw -> r * 2 ^ dw + d < 2 ^ (8 * nb).
+  Proof.
+    intros Hr Hd. assert (2 ^ (rw + dw) <= 2 ^ (8 * nb)) by (apply N.pow_le_mono_r; lia).
+    rewrite N.pow_add_r in H. nia.
+  Qed.
+
+  Lemma binary_step r d : r < 2 ^ rw -> d < 2 ^ dw ->
+    cw_binary_step it r d = Ok (le_bytes (N.to_nat nb) (r * 2 ^ dw + d), (r =? mr, d <=? mv, d =? 0)).
+  Proof.
+    intros Hr Hd. unfold cw_binary_step. subst it. cbn [cw_bytes cw_rep_mask cw_def_mask cw_def_width cw_max_rep cw_max_vis].
+    pose proof (word_lt r d Hr Hd) as Hw.
+    assert (Hpr : 2 ^ rw <= 2 ^ (8 * nb)) by (apply N.pow_le_mono_r; lia).
+    assert (Hpd : 2 ^ dw <= 2 ^ (8 * nb)) by (apply N.pow_le_mono_r; lia).
+    rewrite !land_mask by assumption. rewrite !N.mod_small by lia.
+    unfold shl_w. replace (8 * nb <=? dw) with false by (symmetry; apply N.leb_gt; lia). cbn [bind].
+    assert (Hpos : 0 < 2 ^ dw) by (apply N.neq_0_lt_0, N.pow_nonzero; lia).
+    rewrite N.mod_small by nia.
+    unfold add_w. replace (2 ^ (8 * nb) <=? r * 2 ^ dw + d) with false by (symmetry; apply N.leb_gt; exact Hw).
+    reflexivity.
+  Qed.
+
+  Lemma binary_parse r d rest : r < 2 ^ rw -> d < 2 ^ dw ->
+    parse_word (P_BOTH nb dw (2 ^ dw - 1)) (le_bytes (N.to_nat nb) (r * 2 ^ dw + d) ++ rest) = Ok (Some r, Some d) /\
+    parse_desc (P_BOTH nb dw (2 ^ dw - 1)) (le_bytes (N.to_nat nb) (r * 2 ^ dw + d) ++ rest) mr mv = Ok (r =? mr, d <=? mv, d =? 0).
+  Proof.
+    intros Hr Hd. pose proof (word_lt r d Hr Hd) as Hw.
+    assert (Hpd : 2 ^ dw <= 2 ^ (8 * nb)) by (apply N.pow_le_mono_r; lia).
+    assert (Hpos : 0 < 2 ^ dw) by (apply N.neq_0_lt_0, N.pow_nonzero; lia).
+    assert (Hr16 : r < 65536) by (assert (2 ^ rw <= 2 ^ 16) by (apply N.pow_le_mono_r; lia); change (2 ^ 16) with 65536 in *; lia).
+    assert (Hd16 : d < 65536) by (assert (2 ^ dw <= 2 ^ 16) by (apply N.pow_le_mono_r; lia); change (2 ^ 16) with 65536 in *; lia).
+    assert (Hlen : Nat.leb (N.to_nat nb) (length (le_bytes (N.to_nat nb) (r * 2 ^ dw + d) ++ rest)) = true).
+    { apply Nat.leb_le. rewrite app_length, le_bytes_length. lia. }
+    assert (Hfirst : firstn (N.to_nat nb) (le_bytes (N.to_nat nb) (r * 2 ^ dw + d) ++ rest) = le_bytes (N.to_nat nb) (r * 2 ^ dw + d)).
+    { rewrite firstn_app, le_bytes_length, Nat.sub_diag. cbn [firstn]. rewrite app_nil_r. apply firstn_all2. rewrite le_bytes_length. lia. }
+    assert (Hword : from_le (le_bytes (N.to_nat nb) (r * 2 ^ dw + d)) = r * 2 ^ dw + d).
+    { apply from_le_bytes. rewrite <- pow_bits by exact Hnb. exact Hw. }
+    assert (Hdiv : (r * 2 ^ dw + d) / 2 ^ dw = r) by (rewrite N.div_add_l by lia; rewrite N.div_small by exact Hd; lia).
+    assert (Hland : N.land (r * 2 ^ dw + d) ((2 ^ dw - 1) mod 2 ^ (8 * nb)) = d).
+    { rewrite (N.mod_small (2 ^ dw - 1)) by lia.
+      replace (2 ^ dw - 1) with (N.ones dw) by (rewrite N.ones_equiv, N.sub_1_r; reflexivity).
+      rewrite N.land_ones. rewrite N.add_comm, N.mod_add by lia. apply N.mod_small. exact Hd. }
+    unfold parse_word, parse_desc. rewrite Hlen. cbn [assert_ bind]. rewrite Hfirst, Hword.
+    unfold shr_w. replace (8 * nb <=? dw) with false by (symmetry; apply N.leb_gt; lia). cbn [bind].
+    rewrite Hdiv, Hland, !N.mod_small by assumption. split; reflexivity.
+  Qed.
+End Binary.
+
+Lemma run_parse_binary nb rw dw mr mv : nb_ok nb -> rw + dw <= 8 * nb -> 1 <= rw -> rw <= 16 -> dw <= 15 ->
+  let it := {| cw_kind_ := CWBinary; cw_bytes := nb; cw_rep_mask := 2 ^ rw - 1; cw_def_mask := 2 ^ dw - 1;
+               cw_def_width := dw; cw_max_rep := mr; cw_max_vis := mv; cw_bits_rep := rw; cw_bits_def := dw |} in
+  forall rep def fuel, length rep = length def -> (length rep < fuel)%nat ->
+  Forall (fun r => r < 2 ^ rw) rep -> Forall (fun d => d < 2 ^ dw) def ->
+  exists bs, cw_run_binary it rep def = Ok (bs, map2 (fun r d => (r =? mr, d <=? mv, d =? 0)) rep def) /\
+             (length rep <= length bs)%nat /\
+             parse_all (P_BOTH nb dw (2 ^ dw - 1)) bs mr mv fuel = Ok (rep, def, map2 (fun r d => (r =? mr, d <=? mv, d =? 0)) rep def).
+Proof.
+  intros Hnb Hfit Hrw Hrw16 Hdw16 it. 
+  assert (Hnbpos : (1 <= N.to_nat nb)%nat) by (destruct Hnb as [->|[->| ->]]; cbn; lia).
+  induction rep as [|r rep IH]; intros def fuel Hlen Hfuel Hr Hd.
+  - destruct def; [|discriminate]. exists []. split; [reflexivity|]. split; [cbn; lia|].
+    destruct fuel; [lia|]. cbn [parse_all parser_bytes length]. 
+    replace (Nat.eqb (N.to_nat nb) 0) with false by (symmetry; apply Nat.eqb_neq; lia).
+    replace (Nat.ltb 0 (N.to_nat nb)) with true by (symmetry; apply Nat.ltb_lt; lia). reflexivity.
+  - destruct def as [|d def]; [discriminate|]. inversion Hr as [|? ? Hr1 Hr']; subst. inversion Hd as [|? ? Hd1 Hd']; subst.
+    destruct fuel as [|fuel]; [lia|].
+    destruct (IH def fuel) as (bs & Erun & Hbl & Eparse); [cbn in Hlen; lia|cbn in Hfuel; lia|assumption|assumption|].
+    exists (le_bytes (N.to_nat nb) (r * 2 ^ dw + d) ++ bs).
+    cbn [cw_run_binary map2].
+    assert (Hbs : cw_binary_step it r d = Ok (le_bytes (N.to_nat nb) (r * 2 ^ dw + d), (r =? mr, d <=? mv, d =? 0))) by (apply binary_step; assumption).
+    rewrite Hbs. cbn [bind].
+    rewrite Erun. cbn [bind]. split; [reflexivity|]. split; [rewrite app_length, le_bytes_length; cbn [length]; lia|].
+    destruct (binary_parse nb rw dw mr mv) with (r := r) (d := d) (rest := bs) as [Ew Ed]; try assumption.
+    cbn [parse_all parser_bytes].
+    replace (Nat.eqb (N.to_nat nb) 0) with false by (symmetry; apply Nat.eqb_neq; lia).
+    replace (Nat.ltb (length (le_bytes (N.to_nat nb) (r * 2 ^ dw + d) ++ bs)) (N.to_nat nb)) with false
+      by (symmetry; apply Nat.ltb_ge; rewrite app_length, le_bytes_length; lia).
+    rewrite Ew, Ed. cbn [bind].
+    replace (skipn (N.to_nat nb) (le_bytes (N.to_nat nb) (r * 2 ^ dw + d) ++ bs)) with bs.
+    2:{ rewrite skipn_app, le_bytes_length, Nat.sub_diag. cbn [skipn]. rewrite skipn_all2 by (rewrite le_bytes_length; lia). reflexivity. }
+    rewrite Eparse. reflexivity.
+Qed.
+
+Lemma word_bytes_ok tw : tw <= 32 -> nb_ok (word_bytes tw) /\ tw <= 8 * word_bytes tw.
+Proof.
+  intros H. unfold word_bytes, nb_ok. destruct (tw <=? 8) eqn:E1; [apply N.leb_le in E1; split; [auto|lia]|].
+  destruct (tw <=? 16) eqn:E2; [apply N.leb_le in E2; split; [auto|lia]|]. split; [auto|lia].
+Qed.
+
+Theorem control_words_roundtrip rep def mr md mv len :
+  length rep = length def ->
+  1 <= mr -> mr < 32768 -> 1 <= md -> md < 32768 ->
+  Forall (fun r => r <= mr) rep -> Forall (fun d => d <= md) def ->
+  let descs := map2 (fun r d => (r =? mr, d <=? mv, d =? 0)) rep def in
+  exists bpw br bd bs,
+    cw_encode (Some rep) (Some def) mr md mv len = Ok (bpw, br, bd, true, bs, descs, true) /\
+    (do p <- parser_new br bd; parse_all p bs mr mv (S (length bs))) = Ok (rep, def, descs).
+Proof.
+  intros Hlen Hmr1 Hmr2 Hmd1 Hmd2 Hr Hd descs.
+  change 32768 with (2 ^ 15) in *.
+  destruct (size_bound mr 15 Hmr1 Hmr2) as [Hrw15 Hrw1]. destruct (size_bound md 15 Hmd1 Hmd2) as [Hdw15 Hdw1].
+  set (rw := N.size mr) in *. set (dw := N.size md) in *.
+  destruct (word_bytes_ok (rw + dw)) as [Hnb Hfit]; [lia|].
+  assert (Hr' : Forall (fun r => r < 2 ^ rw) rep) by (eapply Forall_impl; [|exact Hr]; intros; apply le_size; assumption).
+  assert (Hd' : Forall (fun d => d < 2 ^ dw) def) by (eapply Forall_impl; [|exact Hd]; intros; apply le_size; assumption).
+  destruct (run_parse_binary (word_bytes (rw + dw)) rw dw mr mv Hnb Hfit Hrw1 ltac:(lia) Hdw15 rep def) with (fuel := S (length rep)) as (bs & Erun & Hbl & _);
+    [exact Hlen|lia|exact Hr'|exact Hd'|].
+  destruct (run_parse_binary (word_bytes (rw + dw)) rw dw mr mv Hnb Hfit Hrw1 ltac:(lia) Hdw15 rep def) with (fuel := S (length bs)) as (bs' & Erun' & _ & Eparse);
+    [exact Hlen|lia|exact Hr'|exact Hd'|].
+  rewrite Erun in Erun'. inversion Erun'; subst bs'. clear Erun'.
+  exists (word_bytes (rw + dw)), rw, dw, bs.
+  unfold cw_encode, build_cw. cbn [is_some].
+  replace (mr =? 0) with false by (symmetry; apply N.eqb_neq; lia). replace (md =? 0) with false by (symmetry; apply N.eqb_neq; lia).
+  unfold log_2_ceil. replace (mr =? 0) with false by (symmetry; apply N.eqb_neq; lia). replace (md =? 0) with false by (symmetry; apply N.eqb_neq; lia).
+  cbn [bind]. fold rw dw. unfold get_mask.
+  replace (16 <=? rw) with false by (symmetry; apply N.leb_gt; lia). replace (16 <=? dw) with false by (symmetry; apply N.leb_gt; lia).
+  cbn [bind]. rewrite !N.mod_small by lia.
+  split.
+  - rewrite Erun. cbn [bind cw_bytes cw_bits_rep cw_bits_def]. reflexivity.
+  - unfold parser_new, add_w. replace (2 ^ 8 <=? rw + dw) with false by (symmetry; apply N.leb_gt; change (2 ^ 8) with 256; lia).
+    cbn [bind]. replace (0 <? rw) with true by (symmetry; apply N.ltb_lt; lia). replace (0 <? dw) with true by (symmetry; apply N.ltb_lt; lia).
+    unfold get_mask. replace (16 <=? dw) with false by (symmetry; apply N.leb_gt; lia). cbn [bind]. exact Eparse.
+Qed.
